@@ -2,6 +2,7 @@ package server
 
 import (
 	"context"
+	"encoding/json"
 	"os"
 	"path/filepath"
 	"strings"
@@ -198,8 +199,15 @@ func (s *Server) DidChange(ctx context.Context, params *protocol.DidChangeTextDo
 		if !ok {
 			return nil
 		}
-		for _, change := range params.ContentChanges {
-			if isFullChange(change.Range) {
+		rangeless, known := ctx.Value(rangelessChangesKey{}).([]bool)
+		for i, change := range params.ContentChanges {
+			full := isFullChange(change.Range)
+			if known && i < len(rangeless) {
+				// the notification itself says which changes carry a range: an
+				// insertion at 0:0 has one and does not replace the document
+				full = rangeless[i]
+			}
+			if full {
 				content = change.Text
 			} else {
 				content = applyChange(content, change.Range, change.Text)
@@ -218,6 +226,28 @@ func (s *Server) DidChange(ctx context.Context, params *protocol.DidChangeTextDo
 		go s.publishDiagnostics(ctx, params.TextDocument.URI, content)
 	}
 	return nil
+}
+
+type rangelessChangesKey struct{}
+
+// WithRangelessChanges notes, for one didChange notification, which of its
+// content changes were sent without a range (and so replace the whole text).
+// protocol.TextDocumentContentChangeEvent cannot tell an absent range from the
+// empty range at 0:0, so the dispatcher reads it from the raw parameters.
+func WithRangelessChanges(ctx context.Context, rawParams []byte) context.Context {
+	var params struct {
+		ContentChanges []struct {
+			Range *json.RawMessage `json:"range"`
+		} `json:"contentChanges"`
+	}
+	if err := json.Unmarshal(rawParams, &params); err != nil {
+		return ctx
+	}
+	rangeless := make([]bool, len(params.ContentChanges))
+	for i, change := range params.ContentChanges {
+		rangeless[i] = change.Range == nil || string(*change.Range) == "null"
+	}
+	return context.WithValue(ctx, rangelessChangesKey{}, rangeless)
 }
 
 func isFullChange(r protocol.Range) bool {
